@@ -100,6 +100,15 @@ func checkC07(c *Check) {
 					if !containsStr(wr.Args, "buf2") {
 						problems = append(problems, "write step does not append to the output buffer")
 					}
+					// a JSON context handed to the transcoder reaches the writer (it selects the JSON dialect)
+					for _, p := range ir.Params {
+						if p.Role == "ctx" && strings.Contains(p.Name, "JSONWriteContext") && !containsStr(wr.Args, p.Name) {
+							problems = append(problems, "the JSON write context parameter is not passed to the write step ("+funcDisplayName(wr.Fn)+" is called without it)")
+						}
+						if p.Role == "ctx" && strings.Contains(p.Name, "JSONReadContext") && !containsStr(rd.Args, p.Name) {
+							problems = append(problems, "the JSON read context parameter is not passed to the read step")
+						}
+					}
 				}
 				c.Ob("result-transcoder-is-read-then-write", name+"."+cb.name, len(problems) == 0, posStr(g.co.Fset, fi.Decl.Pos()), strings.Join(problems, "; "))
 			}
